@@ -116,5 +116,79 @@ let handle toks = match toks with
       else if OLst.exists (fun (_, sp) -> sp = Undetermined) rs then "UNDETERMINED"
       else "OK " ^ cnt ^ OStr.concat "" (OLst.map (fun (_, sp) -> match sp with Is v -> " [" ^ show_pair v ^ "]" | _ -> "") rs) in
     model ^ " ## " ^ spec
+  | ("uvec" | "upos" as cmd) :: kind :: rest ->
+    (* the dimension, then its unit *)
+    let (ctx, mk, domd, rest) = (match kind, rest with
+        | "s", dt :: off :: rest ->
+          let dt = dec_dbl dt and o = off_of off in
+          (sampled_ctx dt o, (fun du -> DSampled (dt, (if off = "-" then None else Some o), du)),
+           (fun s e -> sampled_dom dt o s && fis_finite e), rest)
+        | "r", k :: rest ->
+          let k = oint_of_string k in
+          let ticks = OLst.map dec_dbl (take k rest) in
+          (range_ctx ticks, (fun du -> DRange (ticks, du)), (fun s e -> fis_finite s && fis_finite e && k > 0), drop k rest)
+        | _ -> failwith "bad dimension kind") in
+    (match rest with
+     | du :: rest ->
+       let du_o = if du = "-" then None else Some (cstr du) in
+       let d = mk du_o in
+       let dim_none = (du = "-" || du = "none") in
+       (* the factor the scalar overload applies to a position carrying unit u *)
+       let factor u = if u = "none" then Some (Ok fone) else if dim_none then None
+         else Some (scaling_or_incompatible (cstr u) (cstr du)) in
+       if cmd = "upos" then
+         (match rest with
+          | [p; u; r] ->
+            let p = dec_dbl p and m = rule_of r in
+            let model = positionToIndex_one p (cstr u) m d in
+            let (x, n, f) = ctx in
+            let spec = (match factor u with
+                | None -> "ANY"
+                | Some (Ok k) -> let q = fmul p k in
+                  show_spec show_opt (if domd q q then spec_scalar x n m q (f q) else Any)
+                | Some _ -> "ERR") in
+            show_res show_opt model ^ " ## " ^ spec
+          | _ -> failwith "bad upos")
+       else
+         (match rest with
+          | m :: cnt :: triples ->
+            let rec tr l = match l with s :: e :: u :: t -> (dec_dbl s, dec_dbl e, u) :: tr t | _ -> [] in
+            let ts = tr triples in
+            let rm = if mode_incl m then RangeMatch_Inclusive else RangeMatch_Exclusive in
+            let model = positionToIndex_vec (OLst.map (fun (s, _, _) -> s) ts) (OLst.map (fun (_, e, _) -> e) ts)
+                (OLst.map (fun (_, _, u) -> cstr u) ts) rm d in
+            let show_list l = string_of_int (OLst.length l) ^ OStr.concat "" (OLst.map (fun v -> " [" ^ show_pair v ^ "]") l) in
+            let fs = OLst.map (fun (_, _, u) -> factor u) ts in
+            let spec =
+              if OLst.exists (fun f -> match f with Some (Err _) | Some (UB _) -> true | _ -> false) fs then "ERR"
+              else if OLst.exists (fun f -> f = None) fs then "ANY"
+              else begin
+                let rs = OLst.map2 (fun (s, e, _) f -> match f with
+                    | Some (Ok k) -> let s' = fmul s k and e' = fmul e k in
+                      snd (pair ctx (domd s' e') s' e' (mode_incl m))
+                    | _ -> Any) ts fs in
+                if OLst.exists (fun sp -> sp = Any) rs then "ANY"
+                else if OLst.exists (fun sp -> sp = Undetermined) rs then "UNDETERMINED"
+                else "OK " ^ show_list (OLst.map (fun sp -> match sp with Is v -> v | _ -> None) rs)
+              end in
+            ignore cnt;
+            show_res show_list model ^ " ## " ^ spec
+          | _ -> failwith "bad uvec")
+     | _ -> failwith "bad uvec/upos")
+  | "stale" :: k :: rest ->
+    let k = oint_of_string k in
+    (match drop k rest with
+     | k2 :: rest2 ->
+       let k2 = oint_of_string k2 in
+       let ticks = OLst.map dec_dbl (take k2 rest2) in
+       (match drop k2 rest2 with
+        | [p; r] ->
+          let p = dec_dbl p and m = rule_of r in
+          let (x, n, f) = range_ctx ticks in
+          let twice g = function Ok o -> "OK " ^ g o ^ " | " ^ g o | Err e -> "ERR " ^ ostr e | UB w -> "UB " ^ ostr w in
+          let spec = if fis_finite p && k2 > 0 then spec_scalar x n m p (f p) else Any in
+          twice show_opt (f p m) ^ " ## " ^ (match spec with Is v -> "OK " ^ show_opt v ^ " | " ^ show_opt v | s -> show_spec show_opt s)
+        | _ -> failwith "bad stale")
+     | _ -> failwith "bad stale")
   | _ -> failwith "bad command"
 let () = run_file OSys.argv.(1) handle
